@@ -68,6 +68,9 @@ def instrument(func, cuts=(), rewrite_asserts=True):
         if "#" in anchor:
             anchor, want = anchor.split("#")
             want = int(want)
+        subscript = anchor.endswith("[]")      # anchor on assignments  name[...] = ...
+        if subscript:
+            anchor = anchor[:-2]
         cands = []
         for node in ast.walk(tree):
             for attr in ("body", "orelse", "finalbody"):
@@ -80,7 +83,10 @@ def instrument(func, cuts=(), rewrite_asserts=True):
                         tg = st.targets[0]
                     elif isinstance(st, ast.AugAssign):
                         tg = st.target
-                    if isinstance(tg, ast.Name) and tg.id == anchor:
+                    if subscript:
+                        if isinstance(tg, ast.Subscript) and isinstance(tg.value, ast.Name) and tg.value.id == anchor:
+                            cands.append((bl, i, st.lineno, st))
+                    elif isinstance(tg, ast.Name) and tg.id == anchor:
                         cands.append((bl, i, st.lineno, st))
         cands.sort(key=lambda c: c[2])
         if cands:
